@@ -284,7 +284,11 @@ def build_props(prop):
     """Build Props/<prop>.vo; returns dict(ok, log, theorems, obligations, discharged, assumptions, forbidden)."""
     res = dict(ok=False, log="", theorems=[], obligations=0, discharged=0, assumptions=[], forbidden=[], files=[])
     pv = f"Props/{prop}.v"
-    files = sorted(cone(pv))
+    # companion theorem files of the property: Props/<prop><letter>.v that are not engines of their own (no Extract/E<prop><letter>.v)
+    pvs = [pv] + sorted(f"Props/{f}" for f in os.listdir(os.path.join(COQ, "Props"))
+                        if re.fullmatch(re.escape(prop) + r"[a-z]\.v", f)
+                        and not os.path.exists(os.path.join(COQ, "Extract", "E" + f)))
+    files = sorted(set().union(*[cone(x) for x in pvs]))
     res["files"] = files
     for f in files:
         try:
@@ -293,22 +297,23 @@ def build_props(prop):
             continue
         names = STATEMENT.findall(text)
         res["obligations"] += len(names)
-        if f == pv:
-            res["theorems"] = names
+        if f in pvs:
+            res["theorems"] = res["theorems"] + names
         for m in FORBIDDEN.finditer(text):
             res["forbidden"].append(f"{f}: {m.group(0)}")
         if re.search(r"^\s*(Variable|Hypothesis|Variables|Hypotheses)\b", text, re.M) and not re.search(r"^\s*Section\b", text, re.M):
             res["forbidden"].append(f"{f}: Variable/Hypothesis outside a section")
-    rc, out = make([f"Props/{prop}.vo"])
+    rc, out = make([x[:-2] + ".vo" for x in pvs])
     res["log"] = out
     if rc or res["forbidden"]:
         return res
-    # re-run coqc on the property file alone to capture Print Assumptions verbatim
-    rc, out = sh(["timeout", "600", "coqc", "-R", ".", "SR", "-w", "-notation-overridden", pv], cwd=COQ)
-    res["log"] += out
-    if rc:
-        return res
-    res["assumptions"] = [ln.strip() for ln in out.splitlines() if ln.strip() and not ln.startswith("Warning")]
+    # re-run coqc on the property files alone to capture Print Assumptions verbatim
+    for x in pvs:
+        rc, out = sh(["timeout", "600", "coqc", "-R", ".", "SR", "-w", "-notation-overridden", x], cwd=COQ)
+        res["log"] += out
+        if rc:
+            return res
+        res["assumptions"] += [ln.strip() for ln in out.splitlines() if ln.strip() and not ln.startswith("Warning")]
     res["ok"] = True
     res["discharged"] = res["obligations"]
     return res
